@@ -91,7 +91,7 @@ def _out_class(spec, k: int) -> str:
             if t[0] == "const":
                 return "out_is_const"
             return "computed:" + t[0]
-    return "pytree_fn:" + spec.id
+    return "pytree_fn"
 
 
 def run_function(ctx, spec, seed):
@@ -140,7 +140,7 @@ def run_function(ctx, spec, seed):
                 ctx.fail(
                     COMPONENT,
                     "incremental",
-                    "features:" + ",".join(sorted(feats & {"out_is_input", "out_is_literal", "out_is_const", "pytree_arg"})) or "computed",
+                    "features:" + (",".join(sorted(feats & {"out_is_input", "out_is_literal", "out_is_const", "pytree_arg"})) or "computed"),
                     f"exception:{type(e).__name__}",
                     {"fn": spec.id, "tagging": tagname, "input": bits, "error": str(e)[:400]},
                 )
